@@ -43,6 +43,8 @@ SumV(s) == IF s = <<>> THEN <<0,0>> ELSE <<Head(s)[1] + SumV(Tail(s))[1], Head(s
 SumQ(s) == IF s = <<>> THEN <<0,0>> ELSE <<Sq(Head(s)[1]) + SumQ(Tail(s))[1], Sq(Head(s)[2]) + SumQ(Tail(s))[2]>>
 Stat(s) == [n |-> Len(s), s |-> SumV(s), q |-> SumQ(s)]
 Out     == [d \in D |-> Stat(snap[d])]
+\* predict(X) names designs by the index column of X; the answer is pointwise in the query - any order, length, repetition or gap
+PredictSeq(q) == [k \in 1..Len(q) |-> Out[q[k]]]
 
 \* theorems about the machine
 StatOrderFree == \A d \in D : \A i, j \in 1..Len(snap[d]) :
